@@ -190,4 +190,19 @@ PROPS = {
         "level_note": "trusted: Lean kernel; harness/check; katib-config parsing (katibconfig.GetSuggestionConfigData) exercised but not modelled",
         "assumptions": ["labels are compared as sets (Go maps)"],
     },
+    "C13": {
+        "prop_files": ["Katib/Props/C13.lean"],
+        "n": {"quick": 8000, "thorough": 300000},
+        "rule": "TEXT logs (default filter and four custom two-group filters incl. two filters at once; several metrics per line, noise lines, lines without space, valid/invalid/missing "
+                "first-token timestamps, random byte lines) and JSON-lines logs (string / numeric / missing / wrong-typed timestamps with 0-10 fractional digits, negative and huge "
+                "numbers, non-string metric values, empty and invalid lines) x tracked-metric lists (1-3 names, duplicates; rarely empty); written to a temp file and read by the real "
+                "CollectObservationLog; non-trivial = at least one tracked metric",
+        "trusted": ["regexp, strings.Contains/SplitN/TrimSpace, time.Parse, encoding/json, strconv are oracles evaluated by the harness independently of the collector code"],
+        "modelled": ["parseLogsInTextFormat, parseLogsInJsonFormat, newObservationLog, parseTimestamp as Katib.Log.parseText/parseJson/finish/epochNanos"],
+        "level_text": "partial: Lean theorems C13_text (exactly the tracked occurrences in line/filter/match order with value and timestamp), C13_only_tracked, C13_fallback, C13_total(+_json), "
+                      "C13_json_line, C13_json_invalid, C13_epoch_partial; C13_epoch_order_counterexample witnesses the known finding (fraction read as nanoseconds); differential run on "
+                      "generated files incl. byte fuzz",
+        "level_note": "partial: regexp/JSON/time engines are oracles; Go crash-freedom beyond the modelled index site is evidence from the byte-fuzz stream, not a theorem",
+        "assumptions": ["filters compile and have two groups (enforced by the experiment validator)", "the collector always passes the objective metric first (non-empty list)"],
+    },
 }
